@@ -295,7 +295,7 @@ def resolve_p(spec, n: int, flip: bool = False) -> float:
 @st.composite
 def esvar_case(draw):
     dtype = draw(st.sampled_from(["float32", "float64"]))
-    shape = draw(shape_s())
+    shape = draw(shape_s(large=12))
     which = draw(st.sampled_from(["expected_shortfall", "ExpectedShortfall", "value_at_risk", "value_at_risk", "topp"]))
     dims = [0, 0] + ([1, -1] if len(shape) >= 2 else []) + ["none"]
     dim = draw(st.sampled_from(dims))
